@@ -1,14 +1,17 @@
 SPECIFICATION Spec
 CONSTANTS
   Geoms <- GeomsQuick
-  MaxDepth = 2
+  MaxDepth = 1
   WideDepth = 1
+  WideGids <- Gids13
+  NarrowOps <- OpsN
+  NarrowArity = 2
   MaxArity = 3
+  Lanes = TRUE
   Record = FALSE
   Bug = "none"
 INVARIANT RoutesAgree
 INVARIANT NamingKept
-INVARIANT FactsProduct
 INVARIANT TypeOK
 PROPERTY RejectStutters
 CHECK_DEADLOCK FALSE
